@@ -82,7 +82,7 @@ static RunResult execute_plan(const Scenario& s, const Plan& plan) {
 
 static Plan make_plan(const Scenario& s, uint64_t verif_seed, uint64_t local_index, bool thorough, int profile) {
   uint64_t rs = run_seed_for(verif_seed, s, local_index);
-  Plan p = s.generate(rs, thorough);
+  Plan p = s.generate_indexed ? s.generate_indexed(local_index, thorough) : s.generate(rs, thorough);
   p.prop = s.prop;
   p.scenario = s.name;
   p.seed = rs;
@@ -504,12 +504,14 @@ static int cmd_check(int argc, char** argv) {
   double budget_s = cs.thorough ? 1500 : 240;
   std::string only_scenario;
   std::string part_path;
+  std::string hashes_path;
   for (int i = 4; i < argc; i++) {
     if (!strcmp(argv[i], "--workers") && i + 1 < argc) cs.K = atoi(argv[++i]);
     else if (!strcmp(argv[i], "--scale") && i + 1 < argc) scale = atof(argv[++i]);
     else if (!strcmp(argv[i], "--budget-s") && i + 1 < argc) budget_s = atof(argv[++i]);
     else if (!strcmp(argv[i], "--scenario") && i + 1 < argc) only_scenario = argv[++i];
     else if (!strcmp(argv[i], "--part") && i + 1 < argc) part_path = argv[++i];
+    else if (!strcmp(argv[i], "--dump-hashes") && i + 1 < argc) hashes_path = argv[++i];
   }
   if (const char* e = getenv("VERIF_SCALE")) scale *= atof(e);
   if (const char* e = getenv("VERIF_BUDGET_S")) budget_s = atof(e);
@@ -748,6 +750,13 @@ static int cmd_check(int argc, char** argv) {
   }
 
   double wall = now_s() - t0;
+  if (!hashes_path.empty()) {
+    // one line per executed run: index, scenario, event-log hash (used by tools/determinism.sh to compare executions
+    // made with different worker counts / in different processes)
+    std::string out;
+    for (size_t i = 0; i < cs.order.size(); i++) if (run_done[i]) { char b[160]; snprintf(b, sizeof b, "%zu %s %016llx\n", i, cs.ss[size_t(cs.order[i].scen)]->name, (unsigned long long)run_hash[i]); out += b; }
+    write_file(hashes_path, out);
+  }
 
   // Evidence part
   Json ev = Json::Object();
